@@ -37,6 +37,9 @@ CLAIMS = {
     "C10": ("twin execution: every generated problem (Elastic 2D/3D with all four laws and rotated material axes, Thermal incl. embedded surfaces and lines, HyperElastic, Beam EB/Timoshenko members and welded frames, static and one Newmark step) is solved together with its image under a random proper or improper rigid motion, built either from transformed arrays or by moving the mesh object; vectors must rotate, scalars and energies must not change, beam rotations transform as axial vectors; single cantilevers are also compared with the closed-form member response",
             "Dirichlet data on all components of constrained nodes; triclinic laws moved by proper rotations only; tolerance 1e-8 (1e-6 hyperelastic)",
             "twin-execution oracle (metamorphic relation between two real solutions) + closed-form member response"),
+    "C11": ("every law class (Isotropic, TransverselyIsotropic, Orthotropic, Anisotropic) with seeded admissible moduli, default / orthonormal / unnormalised axes, homogeneous / per-element / per-Gauss-point parameters, 3D / plane stress / plane strain is compared with an independent tensor-algebra model (textbook compliance, full 4th-order rotation, plane reductions, Voigt<->Kelvin-Mandel scaling): SPD, C.S = I, reduction of the 3D law, notation and axis-length independence; Get_Pmat / Apply_Pmat against an independently built change-of-basis matrix; parameter-write sequences against fresh objects; Walpole decompositions",
+            "relative tolerance 1e-10; constructor rejections by the law's own admissibility assertions are counted, not failed",
+            "reference-model oracle (independent tensor algebra) at the C / S / Get_Pmat read boundary + fresh-twin comparison after writes"),
 }
 
 
